@@ -449,7 +449,16 @@ pub fn strategy(dim: usize, max_ops: usize) -> BoxedStrategy<Case> {
         4 => 8,
         _ => 8,
     };
-    (any::<bool>(), any::<u64>(), start_strategy(dim, nmax, 0), proptest::collection::vec(op_strategy(dim, MIX), 0..=max_ops), prop_oneof![2 => Just(true), 1 => Just(false)])
+    // a quarter of the k=1 insertions place the new vertex outside the split cell (see gen::history)
+    let op = (op_strategy(dim, MIX), 0u8..4, 0u8..6, 0u8..8).prop_map(|(op, outside, i, t)| match op {
+        Op::FlipK1Insert { cell, mut w, uuid } if outside == 0 => {
+            w.push(i);
+            w.push(t);
+            Op::FlipK1Insert { cell, w, uuid }
+        }
+        o => o,
+    });
+    (any::<bool>(), any::<u64>(), start_strategy(dim, nmax, 0), proptest::collection::vec(op, 0..=max_ops), prop_oneof![2 => Just(true), 1 => Just(false)])
         .prop_map(move |(robust, salt, start, ops, exhaustive_handles)| Case { dim, robust, salt, start, ops, exhaustive_handles })
         .boxed()
 }
@@ -484,7 +493,7 @@ pub fn meta() -> super::Meta {
     super::Meta {
         id: ID,
         level: "exploration",
-        rule: "case = batch-constructed start state + a generated sequence of flips of every kind (valid, boundary, stale, forged and out-of-range handles) + (2/3 of the cases) every handle of the resulting state: every cell x facet (k=2), cell x ridge (k=3), cell (k=1 insert), vertex (k=1 remove), vertex pair (inverse k=2) and vertex triples for D>=4 (inverse k=3); every attempt is made on a clone, a success is checked (independent L1/L2, facet degrees, closed boundary, connectedness, Euler characteristic, boundary facet set and vertex set for k>=2, prescribed cell-count change, FlipInfo cells and faces) and then undone through the inverse handle and compared with the original cell set; evaluations = flip attempts; non-trivial = case with at least one successful flip; distinct by the whole case",
+        rule: "case = batch-constructed start state + a generated sequence of flips of every kind (valid, boundary, stale, forged and out-of-range handles; a quarter of the k=1 insertions place the new vertex outside the split cell, beyond one of its facets, which the combinatorial Edit API accepts) + (2/3 of the cases) every handle of the resulting state: every cell x facet (k=2), cell x ridge (k=3), cell (k=1 insert), vertex (k=1 remove), vertex pair (inverse k=2) and vertex triples for D>=4 (inverse k=3); every attempt is made on a clone, a success is checked (independent L1/L2, facet degrees, closed boundary, connectedness, Euler characteristic, boundary facet set and vertex set for k>=2, prescribed cell-count change, FlipInfo cells and faces) and then undone through the inverse handle and compared with the original cell set; evaluations = flip attempts; non-trivial = case with at least one successful flip; distinct by the whole case",
         assumptions: &[
             "geometric embedding is not demanded of the Edit API (documented: Levels 1-2 only)",
             "an inverse move refused by the library is recorded, not reported (the property speaks of applying the inverse)",
